@@ -24,7 +24,8 @@ META = {
         ' Round 7: the collectors behind the writers keep every element (no identity / membership filter on insert); result caches on the description are keyed by value.'
         ' Round 8: list cells are written entry by entry (no dict.fromkeys de-duplication); no first-element fast path in _from_multiple.'
         ' Round 9: tracts_to_csv opens the file on every call; attribute names are not de-duplicated.'
-        ' Round 10: the header decision of both writers is followed for the four combinations of (file exists, mode): header in all but append-to-existing.'),
+        ' Round 10: the header decision of both writers is followed for the four combinations of (file exists, mode): header in all but append-to-existing.'
+        ' Round 11: every name in Tract.ATTRIBUTES is a value (data attribute or property), not a plain method; ilots witnesses are tried divisions first.'),
     'families': ['TBL', 'EXC', 'SIB', 'ESCAPE', 'FORWARD', 'DEADPARAM', 'SIB-DEFAULTS'],
 }
 
@@ -40,6 +41,22 @@ def check(ctx):
         ctx.check(a in members, 'TBL', f"Tract.ATTRIBUTES[{a!r}] is an attribute of Tract",
                   detail_bad=f"documented attribute {a!r} does not exist on Tract: export yields the n/a placeholder",
                   key=f"TBL|Tract.ATTRIBUTES|{a}")
+    # ... and a VALUE: a plain method (no @property) exported by getattr() is a bound-method object
+    plain = []
+    props = {st.name for c_ in ctx.repo.mro(tract) for st in c_.node.body
+             if isinstance(st, (ast.FunctionDef, ast.AsyncFunctionDef)) and any(
+                 (dotted(d) or '').split('.')[-1] in ('property', 'cached_property', 'getter', 'setter', 'deleter') for d in st.decorator_list)}
+    for c_ in ctx.repo.mro(tract):
+        for st in c_.node.body:
+            if isinstance(st, (ast.FunctionDef, ast.AsyncFunctionDef)) and st.name in attrs and st.name not in props \
+                    and st.name not in plain \
+                    and not any(isinstance(b, ast.Assign) and any(isinstance(t, ast.Name) and t.id == st.name for t in b.targets)
+                                for b in c_.node.body):
+                plain.append(st.name)
+    ctx.check(not plain, 'TBL', 'every documented attribute is a value (data attribute or property), not a method',
+              detail_bad=f"{sorted(plain)} in Tract.ATTRIBUTES are plain methods: to_dict / to_list / the csv writers call getattr() "
+                         f"and export the bound-method object ('<bound method Tract.{plain[0] if plain else ''} of ...>') instead of a value",
+              key=f"TBL|Tract.ATTRIBUTES|method|{','.join(sorted(plain))}")
     ctx.check(all(isinstance(v, str) and v for v in attrs.values()), 'TBL', 'every attribute has a header text',
               detail_bad="empty header", key="TBL|Tract.ATTRIBUTES|headers")
 
